@@ -449,10 +449,15 @@ func (l *Listener) Close() error {
 	if s != nil {
 		s.point(&plainOp{"Listener.Close"})
 	}
+	if l.closed {
+		return errListenerClosed
+	}
 	l.closed = true
 	l.CloseSeq = l.W.Mark("lclose")
 	return nil
 }
+
+var errListenerClosed = &net.OpError{Op: "close", Net: "sim", Err: net.ErrClosed}
 
 // Addr ...
 //
